@@ -310,4 +310,64 @@ def Op.tonicOnly : Op → Bool
   | .userRoute _ => false
   | _ => true
 
+/-! ### Histories: one router value used many times, cloned, served on several connections
+
+`Routes::call(&mut self, req)` is `RoutesFuture(self.router.call(req))`; axum's `Router::call`
+hands the request to its (shared, immutable) route table; `#[derive(Clone)]` on `Routes` copies
+the handle.  `transport::Server` clones the (layered) service once per connection
+(`MakeSvc::call`: `self.inner.clone()`) and puts `RecoverError`, the optional concurrency limit,
+`GrpcTimeout`, `ConnectInfo` and the trace hook (`Svc::call`: takes the request apart and puts it
+together again around `trace_fn`) in front — none of them looks at the path.  So a process is a
+list of router *values*; a call answers from the value it is made on and changes no value; a
+clone adds a value equal to the one cloned. -/
+
+/-- One use of a router value (`v` = index of the value: 0 is the one that was built). -/
+inductive Use
+  /-- `value.call(req)` / `value.ready().await.call(req)` / one stream on a connection whose
+  service is that value -/
+  | call (v : Nat) (path : Bytes)
+  /-- `value.clone()` — also what accepting a connection does -/
+  | clone (v : Nat)
+deriving DecidableEq, Repr
+
+/-- The values alive in the process. -/
+structure Proc where
+  vals : List Table
+deriving Repr
+
+def Proc.clone (p : Proc) (v : Nat) : Proc :=
+  match p.vals[v]? with
+  | some t => ⟨p.vals ++ [t]⟩
+  | none => p
+
+/-- Every request of the history with its answer, in order (a use of a value that does not
+exist answers nothing). -/
+def Proc.answers : Proc → List Use → List (Bytes × Answer)
+  | _, [] => []
+  | p, .call v path :: us =>
+    (match p.vals[v]? with
+     | some t => [(path, t.serve path)]
+     | none => []) ++ Proc.answers p us
+  | p, .clone v :: us => Proc.answers (p.clone v) us
+
+/-- Reconfigured after use: rounds of uses, each followed by `add_service(s)` on the built value
+(`Routes::add_service` takes the value and returns it with one more route; `RoutesBuilder::from`
++ `add_service` + `routes()` does the same), then a last round of uses.  Clones made in an
+earlier round stay what they were; they are not used again here. -/
+def Proc.rounds (t : Table) : List (List Use × Svc) → List Use → List (Bytes × Answer)
+  | [], last => Proc.answers ⟨[t]⟩ last
+  | (us, s) :: rest, last => Proc.answers ⟨[t]⟩ us ++ Proc.rounds (t.addService s) rest last
+
+/-- The generated server's public constructors and setters (`new`, `from_arc`,
+`with_interceptor`, `accept_compressed`, `send_compressed`, `max_decoding_message_size`,
+`max_encoding_message_size`, `Clone`) and the generator's switches `use_arc_self`,
+`generate_default_stubs`, `compile_well_known_types`, `disable_comments` leave `NAME` and the
+arms of `match req.uri().path()` alone: a server made any of these ways is the same `Svc`. -/
+inductive Ctor
+  | new | fromArc | withInterceptor | configured | cloned
+deriving DecidableEq, Repr
+
+def Svc.made (s : Svc) (_ : Ctor) : Svc := s
+
+
 end Router
